@@ -145,6 +145,8 @@ def render(prog):
             if name != prog["main"]:
                 for c in d.get("termsim_when", ()):
                     out.append(f"        terminate simulation when {_c(c)}")
+                for r in range(d.get("records", 0)):
+                    out.append(f'        record probe.rec("{name}.r{r}") as {name}_r{r}')
             if d.get("compose") is not None:
                 out.append("    compose:")
                 render_block(d["compose"], name, 2, out)
@@ -586,6 +588,7 @@ C12_SUBSCENARIOS = {
     "S7": {"compose": [("do", ["S1"]), ("wait",)]},
     "S8": {"compose": [("dofor", ["S6", "S3"], 3, "steps"), ("waituntil", "c1")]},
     "S9": {"termsim_when": ["tss"], "terminate_after": (3, "steps"), "compose": None},
+    "S10": {"termsim_when": ["tss"], "records": 1, "compose": [("wait",), ("wait",), ("wait",), ("wait",)]},
 }
 
 
@@ -636,9 +639,27 @@ def c12_modular_programs(tier, start_index=0):
             yield idx, prog
             idx += 1
     # `terminate when` / `terminate simulation when` in the setup block of a sub-scenario
-    for body in ([("do", ["S5"])], [("wait",), ("do", ["S5", "S1"])], [("dofor", ["S5"], 2, "steps")], [("do", ["S9"])], [("wait",), ("do", ["S1", "S9"]), ("wait",)], [("dountil", ["S9", "S5"], "c1")]):
+    W = ("wait",)
+    for body, ta in (
+        ([("do", ["S5"])], 4),
+        ([W, ("do", ["S5", "S1"])], 4),
+        ([("dofor", ["S5"], 2, "steps")], 4),
+        ([("do", ["S9"])], 4),
+        ([W, ("do", ["S1", "S9"]), W], 4),
+        ([("dountil", ["S9", "S5"], "c1")], 4),
+        # a sub-scenario stopped early (by `for` / `until`, by its own limit, or with its
+        # parent) while the simulation goes on: its records and `terminate simulation when`
+        # must not be evaluated any more
+        ([("dofor", ["S10"], 1, "steps"), W, W, W, W], 6),
+        ([("dofor", ["S9"], 1, "steps"), W, W, W], 5),
+        ([("dountil", ["S10"], "c1"), W, W, W], 6),
+        ([W, ("dofor", ["S10", "S6"], 2, "steps"), W, W], 6),
+        ([("do", ["S10"]), W], 6),
+        ([("do", ["S9"]), W, W], 6),
+        ([("do", ["S10", "S3"]), W], 6),
+    ):
         scen = dict(C12_SUBSCENARIOS)
-        scen["Main"] = {"terminate_after": (4, "steps"), "terminate_when": ["tw"], "compose": list(body)}
+        scen["Main"] = {"terminate_after": (ta, "steps"), "terminate_when": ["tw"], "compose": list(body)}
         prog = {
             "behaviors": {"B": {"body": [("loop", None, [("take", "a")])]}},
             "monitors": dict(MONITOR),
